@@ -4,14 +4,14 @@ import os
 
 # property -> rules deciding its structural clauses (DESIGN.md section 4)
 PROPS = {
-    'C01': ['DISPATCH', 'ACDUAL', 'SYMIDX', 'ORDTOTAL', 'FRAMERESET', 'MERGE', 'CACHELIFE'],
+    'C01': ['DISPATCH', 'ACDUAL', 'FINCHK', 'SYMIDX', 'ORDTOTAL', 'FRAMERESET', 'MERGE', 'CACHELIFE'],
     'C02': ['UNIONCONTRIB', 'PRODUCT', 'WORKLIST', 'COW'],
     'C03': ['SIZEEQ', 'WORKLIST', 'DRAIN', 'COW'],
     'C04': ['KIND', 'SIMMAP', 'COPYALL', 'LOOPBOUND'],
     'C05': ['SIMMAP', 'KIND', 'LOOPBOUND', 'DRAIN', 'WORKLIST', 'SIZEEQ', 'COW'],
-    'C07': ['DISPATCH', 'ACDUAL', 'MERGE', 'PARALLEL', 'COLLECTALL', 'CACHELIFE'],
+    'C07': ['DISPATCH', 'ACDUAL', 'FINCHK', 'MERGE', 'PARALLEL', 'COLLECTALL', 'CACHELIFE'],
     'C08': ['UNIONCONTRIB', 'PRODUCT', 'WORKLIST', 'DRAIN', 'INIT', 'COLLECTALL'],
-    'C09': ['DISPATCH', 'ACDUAL', 'MEMO', 'HASHEQ', 'ORDTOTAL'],
+    'C09': ['DISPATCH', 'ACDUAL', 'FINCHK', 'MEMO', 'HASHEQ', 'ORDTOTAL'],
     'C10': ['UNIONCONTRIB', 'PRODUCT', 'PAIRFIELD', 'FINCHK', 'WORKLIST', 'DRAIN', 'PARAMPATH', 'COW'],
     'C11': ['COW', 'CLEARALL', 'HASHCONS', 'CACHELIFE'],
     'C13': ['TEXT', 'PARAMPATH', 'PAIRFIELD'],
@@ -52,6 +52,7 @@ FILTER = {
     ('C10', 'PARAMPATH'): r'explicit_finite', ('C12', 'PARAMPATH'): r'explicit_tree',
     ('C05', 'DRAIN'): r'explicit_tree', ('C05', 'WORKLIST'): r'explicit_tree_unreach', ('C05', 'SIZEEQ'): r'explicit_tree',
     ('C01', 'CACHELIFE'): r'explicit_tree|util/cache', ('C07', 'CACHELIFE'): r'tree_incl_down|util/cache', ('C11', 'CACHELIFE'): r'util/cache',
+    ('C01', 'FINCHK'): r'explicit_tree_incl', ('C07', 'FINCHK'): r'up_tree_incl_fctor', ('C09', 'FINCHK'): r'explicit_finite_incl',
     ('C12', 'COW'): r'explicit_tree',
     ('C14', 'COW'): r'explicit_tree', ('C14', 'KIND'): r'explicit_tree|explicit_finite|bdd_',
     ('C19', 'DISPATCH'): r'aut_base\.hh|explicit_tree_incl\.cc', ('C19', 'KIND'): r'explicit_tree',
